@@ -19,6 +19,10 @@ CONSTANTS
   MaxNow = 7
   AllowClose = TRUE
   AllowCtx = TRUE
+  MaxCalls = 1
+  WFault = FALSE
+  TimeoutCarriesOver = FALSE
+  WriteErrKeepsEntry = FALSE
   MaxTry = 2
 INVARIANTS TypeOK OwnTransaction FirstAcceptable ChanClosedOnlyAfterOwnDone NoNilDelivery PendingEntriesLive Capacity IdReusable CloseStopsLoop Deadline CtxPrompt ClosePrompt Schedule NoRespAtBudget
 PROPERTIES NoTxAfterAccept
